@@ -175,6 +175,9 @@ def lines_leg(ctx, parent, corr_broken):
             what = ("nsq_to_file: an existing plain file that ends inside a record (writer killed between Write(body) and Write(\"\\n\"), "
                     "or a short write) is re-opened with O_APPEND and the next record is appended to the torn tail: FINished message(s) %s "
                     "are not a line of any file (Lean: Props.C19Lines.fin_owns_line_full_false; with fix F47 fin_owns_line_fixed)" % missing)
+            if unreadable:
+                what += (" [the file is write-only for the tool and the regenerated sealTornTail has %s: no readability hypothesis excuses this]"
+                         % ("the committed shape" if srw == 0 else "neither accepted shape"))
         ctx.violation(key, what, replay)
     ctx.corr["lines"] = rows
     if len([r for r in rows if not r["case"].startswith("gen-")]) < 10:
